@@ -468,7 +468,7 @@ impl<'a> Interp<'a> {
         }
         let Some(Obj::F(f)) = self.model.get_mut(&v) else { unreachable!() };
         if buf.bytes(exp) != &f.data[cursor..cursor + exp] {
-            return Err(Fail::new("read-bytes-differ", format!("SFileReadFile({exp} bytes at cursor {cursor} of {len}, file {:?}) returned bytes that differ from the Rust API's content at that position", f.name)));
+            return Err(Fail::new("read-bytes-differ", format!("SFileReadFile({exp} bytes at cursor {cursor} of {len}, file {:?}) returned bytes that differ from the Rust API's content at that position: C {:?} / Rust {:?}", f.name, String::from_utf8_lossy(&buf.bytes(exp)[..exp.min(80)]), String::from_utf8_lossy(&f.data[cursor..cursor + exp.min(80)]))));
         }
         f.cursor += exp;
         buf.untouched_from(exp).map_err(|m| Fail::new("read-writes-more-than-reported", m))?;
